@@ -369,9 +369,10 @@ def run_check(suite, pid, tier, seed):
     proofs = check_proofs(suite)
     cov["obligations"] = proofs["obligations"]
     cov["discharged"] = proofs["discharged"]
-    cov["checker_cmd"] = ("cd /verif/coq && coq_makefile -f _CoqProject -o Makefile && make %s "
-                          "&& coqc -Q . F8 %s   (Coq 8.16.1, full .vo build)" %
-                          (" ".join(suite.COQ_TARGETS), suite.PROPS_FILE))
+    cov["checker_cmd"] = ("coqc -q -Q . F8 (Coq 8.16.1, full .vo, no -vos) on every file of the dependency cone of %s in "
+                          "coqdep order [vlib/build.py:coq_make], then coqc -Q . F8 %s to collect Print Assumptions; "
+                          "from scratch: cd /verif/coq && coq_makefile -f _CoqProject -o Makefile && make %s" %
+                          (" ".join(suite.COQ_TARGETS), suite.PROPS_FILE, " ".join(suite.COQ_TARGETS)))
     cov["trusted_base"] = list(suite.TRUSTED_BASE)
     cov["theorems"] = proofs["theorems"]
     cov["coq_files"] = proofs["files"]
